@@ -40,6 +40,7 @@ struct Settings {
   bool solo_pass = false;    // executing the solo-replay pass: environmental faults are stripped
   bool sanitizer = false;
   long op_cpu_seconds = 60;  // per-operation CPU watchdog (virtual time)
+  std::string own_prefix;   // e.g. "C05.": a check reports only clauses of its own property (others are noted)
   unsigned enabled_mask = 0x1FFE; // parameter sets the configuration under test is expected to enable (bit id)
 };
 extern Settings G;
@@ -51,14 +52,15 @@ struct Outcome {
   std::string summary;   // short text for the event log
   bool skipped = false;  // not applicable in this build (parameter set disabled, hook absent, ...)
   bool machinery = false; // the harness could not evaluate the op (exit 2, never a violation)
-  bool fail(const std::string& c, const std::string& d) {
-    if (clause.empty()) {
-      clause = c;
-      detail = d;
-    }
-    return false;
-  }
+  std::vector<std::string> foreign; // oracle clauses of OTHER properties that did not hold (noted, never reported by this check)
+  // returns true if the operation must stop evaluating its oracle
+  bool fail(const std::string& c, const std::string& d);
 };
+#define CHECK_FAIL(cl, det)                                                                                            \
+  do {                                                                                                                 \
+    if (o.fail((cl), (det)))                                                                                           \
+      return;                                                                                                          \
+  } while (0)
 
 struct TaskCtx {
   int task = 0;
